@@ -468,4 +468,8 @@ def run(ctx):
             i_ok = setop(e, ("intersection",), ast.BitAnd)
             res.add("D-RATIO", v.fi.short, norm(r), "intersection-size", "ok" if i_ok else ("violation" if i_ok is False or not isinstance(e, ast.Call) else "unknown"), "" if i_ok else "intersection() does not return the number of common nodes", loc(v.fi, r))
     res.assumptions += ["itertools.combinations enumerates every subset of the given size (library)", "for the Jaccard distance `s` is a ratio; the SIZE unit of `s` is only used to reject comparisons of `s` with an ORDER-valued expression"]
+    with res.guard("general lint pack over the property's files"):
+        from ..lints import check_pack
+
+        check_pack(ctx, res, "C10")
     return res
